@@ -117,7 +117,7 @@ var ascii95 = func() string {
 // metadata values (simplest first). "Tč" is 00 54 01 0D in UTF-16BE (a CR byte), "⠩" is 28 29
 // (both parentheses), "尼" is 5C 3C (a backslash); the last value has CR LF and unbalanced
 // parentheses in an ASCII string.
-var infoValues = []string{"", "Plain title", "a(b)\\c", "Ünï", "Tč", "⠩尼", "x)\r\n(y", "C:\\dir\\", "Ŝ"}
+var infoValues = []string{"", "Plain title", "a(b)\\c", "Ünï", "Tč", "⠩尼", "x)\r\n(y", "C:\\dir\\", "Ŝ", "clef 𝄞 😀"}
 
 // ---------------------------------------------------------------------------------------------
 // the action alphabet
@@ -1044,7 +1044,7 @@ func Prop() *fw.Property {
 		ID:    "C13",
 		Level: "model_checking",
 		Rule: "every history (word) of the stated length over the call alphabet {NewPage x2, RenderPath x6 styles (opaque, alpha fill+stroke, linear gradient, even-odd dashed stroke, radial gradient with inner stops, gradient to transparent), " +
-			"RenderText x5 (TrueType DejaVuSerif and CFF EBGaramond; 2 and >95 distinct glyphs, alpha, underline; one upright vertical text), RenderImage x2 (opaque rotated, with alpha), SetImageEncoding(Lossy), AddLink, SetInfo x9 (each of the five fields takes each of 9 values: empty, ASCII, parentheses+backslash, Latin-1, UTF-16 with CR byte, UTF-16 with ( ) \\ bytes, ASCII with CR LF, backslashes only incl. a trailing one, UTF-16 whose last byte is a backslash), SetLang x2} " +
+			"RenderText x5 (TrueType DejaVuSerif and CFF EBGaramond; 2 and >95 distinct glyphs, alpha, underline; one upright vertical text), RenderImage x2 (opaque rotated, with alpha), SetImageEncoding(Lossy), AddLink, SetInfo x10 (each of the five fields takes each of 10 values: characters outside the Basic Multilingual Plane (surrogate pairs), empty, ASCII, parentheses+backslash, Latin-1, UTF-16 with CR byte, UTF-16 with ( ) \\ bytes, ASCII with CR LF, backslashes only incl. a trailing one, UTF-16 whose last byte is a backslash), SetLang x2} " +
 			"x {Compress} x {SubsetFonts}, each on a fresh pdf.New writer and closed; the bytes are parsed by an independent reader and checked clause by clause; " +
 			"state = distinct document (SHA-1 of the bytes with CreationDate blanked), transition = one API call, validated trace = one document checked; distinct_nontrivial = globally distinct documents (states is summed per worker)",
 		Assumptions: []string{
